@@ -72,6 +72,7 @@ type c14Scenario struct {
 	BigLogin    bool     `json:"login_id_token_padded,omitempty"`
 	ExtraIssuer bool     `json:"bearer_token_of_extra_issuer,omitempty"`
 	Lenient     bool     `json:"profile_and_validate_endpoints_accept_any_token,omitempty"`
+	PastExpiry  bool     `json:"session_past_its_expiry_when_refreshed,omitempty"`
 	OIDC        bool     `json:"oidc"`
 }
 
@@ -107,6 +108,9 @@ func c14Scenarios() []*c14Scenario {
 			Needs: []string{"token"}, CustomAud: true},
 		// the session is split over several cookies from the start; a refreshed one fits a single cookie again
 		{Name: "refresh-split-session", Flow: "refresh", OIDC: true, Flags: with(oidc, "--cookie-refresh=1m", "--cookie-expire=1h"), Needs: []string{"token"}, BigLogin: true},
+		// the request arrives after the session's own expiry (the cookie itself lives longer): only a
+		// refresh that succeeds may let it through
+		{Name: "refresh-past-session-expiry", Flow: "refresh", OIDC: true, Flags: with(oidc, "--cookie-refresh=1m", "--cookie-expire=24h"), Needs: []string{"token"}, PastExpiry: true},
 		{Name: "validate-url-login", Flow: "login", Flags: kc, Needs: []string{"token", "validate"}},
 		{Name: "validate-url-revalidate", Flow: "revalidate", Flags: kc, Needs: []string{"validate"}, ServeNeeds: []string{"validate"}},
 		// a provider whose profile / validation endpoints answer 200 whatever bearer token they are shown
@@ -225,7 +229,8 @@ func c14Alphabet(sc *c14Scenario, endpoint, grant string) []string {
 			out = append(out, "claims:azp-number", "claims:azp-list-of-numbers", "claims:azp-object")
 		}
 		if grant == "refresh_token" {
-			out = append(out, "bigger-tokens", "bigger-tokens+nonce-mismatch")
+			// slow-500: the provider takes 3 s (of the world's time) before it fails
+			out = append(out, "bigger-tokens", "bigger-tokens+nonce-mismatch", "slow-500")
 		}
 	default:
 		return nil
@@ -279,6 +284,8 @@ func c14Family(kind string) string {
 		return "http-error"
 	case "reset", "hang":
 		return "transport-failure"
+	case "slow-500":
+		return "slow-answer"
 	case "200-empty", "truncated-json", "text-plain", "oversized-8MiB", "userinfo-json-array", "jwks-garbage-keys", "expires-in-garbage":
 		return "malformed-body"
 	case "no-id-token", "no-access-token", "userinfo-no-email", "jwks-no-keys", "discovery-no-endpoints", "no-expires-in", "no-id-token+no-expires-in", "expires-in-zero":
@@ -437,6 +444,7 @@ type c14Result struct {
 	Violations             []c14Viol  `json:"-"`
 	HarnessErr             string     `json:"-"`
 	hangBound, hangUnbound []string
+	pastExpiryRefused, pastExpiryRefreshed int
 	split                  bool
 	arities                []int
 }
@@ -563,6 +571,16 @@ func (e *c14Exec) respond(kind, endpoint string) func(req *http.Request, healthy
 		}
 	case "500":
 		return func(req *http.Request, _ func() *http.Response) (*http.Response, error) {
+			return raw(req, 500, "application/json", `{"error":"server_error"}`)
+		}
+	case "slow-500":
+		return func(req *http.Request, _ func() *http.Response) (*http.Response, error) {
+			// time passes while the provider thinks (deadlines the proxy has set on the virtual clock fire);
+			// a caller that has given up by then sees its own context's error, as with a real transport
+			world.Advance(3 * time.Second)
+			if err := req.Context().Err(); err != nil {
+				return nil, err
+			}
 			return raw(req, 500, "application/json", `{"error":"server_error"}`)
 		}
 	case "400-oauth-error":
@@ -993,6 +1011,7 @@ func c14Run(env *c14Env, sc *c14Scenario, x *explore.Exec) *c14Result {
 	bearer := ""
 
 	var flow []*c14Step // the requests made under the explorer's choices
+	pastExpiry := "" // the stored session that has expired by the time of the explored requests
 	switch sc.Flow {
 	case "login":
 		start := e.serve(b, "start", px.Opts.ProxyPrefix+"/start?rd=%2Fpage")
@@ -1083,6 +1102,10 @@ func c14Run(env *c14Env, sc *c14Scenario, x *explore.Exec) *c14Result {
 		}
 		res.Steps = nil
 		world.Advance(2 * time.Minute)
+		if sc.PastExpiry {
+			world.Advance(2 * time.Hour)
+			pastExpiry = e.stored(b)
+		}
 		e.rotated = sc.Rotated
 		e.choosing = true
 		flow = append(flow, e.serve(b, "request-1", "/page"))
@@ -1090,6 +1113,20 @@ func c14Run(env *c14Env, sc *c14Scenario, x *explore.Exec) *c14Result {
 		e.choosing = false
 	default:
 		panic("c14: flow " + sc.Flow)
+	}
+
+	// ---- a session past its expiry is served only after a refresh that replaced it
+	for _, st := range flow {
+		if pastExpiry != "" && st.Before == pastExpiry && !st.Served {
+			res.pastExpiryRefused++
+		}
+		if pastExpiry != "" && st.Before == pastExpiry && st.Served && st.After != st.Before {
+			res.pastExpiryRefreshed++
+		}
+		if pastExpiry != "" && st.Panic == "" && st.Served && st.Before == pastExpiry && st.After == st.Before {
+			e.violate("C14/refresh/expired-session-served-after-"+c14FirstFault(e.delivered), "%s: the session had expired; the refresh grant was answered %v; request %q was served by the upstream all the same and the stored session is unchanged (a failed answer extended the session's life)",
+				sc.Name, e.delivered, st.Name)
+		}
 	}
 
 	// ---- judgement of the explored requests
@@ -1358,6 +1395,8 @@ func c14Explore(c *Ctx, env *c14Env, u c14Unit, bound int) {
 			c.Inc("ambiguous")
 		}
 		c.Add("hang_ended_by_request_cancellation", int64(len(res.hangBound)))
+		c.Add("expired_session_refused_when_refresh_fails", int64(res.pastExpiryRefused))
+		c.Add("expired_session_replaced_by_successful_refresh", int64(res.pastExpiryRefreshed))
 		c.Add("hang_not_bound_to_request_context", int64(len(res.hangUnbound)))
 		for _, ep := range res.hangUnbound {
 			c.Info["hang_not_cancelled_with_request:"+sc.Name+":"+ep] = true
